@@ -159,3 +159,57 @@ def load_known():
         return {'known': [], 'fixed': []}
     with open(p) as f:
         return json.load(f)
+
+
+# ---------------------------------------------------------------------------------------
+# E3 - compile-fail witnesses (thorough tier)
+
+WITNESS_USE = {
+    'C01': ['W01', 'W02', 'W06'], 'C04': ['W04', 'W08'], 'C05': ['W01', 'W02', 'W03'], 'C10': ['W07', 'W08', 'W09'],
+    'C12': ['W02', 'W05'], 'C13': ['W05', 'W06'], 'C14': ['W10'],
+}
+
+def run_witnesses(repo=None):
+    """Compiles the doc-tests of /verif/witness against `repo` with the nightly toolchain (compile_fail tests with their error
+    code, and their compiling twins with no_run: nothing is executed).  Returns {witness struct name: [(kind, ok)]}; cached by
+    the content hash of the tree and of the witness source."""
+    import re
+    repo = repo or REPO
+    os.makedirs(WORK, exist_ok=True)
+    tag = 'repo' if os.path.realpath(repo) == '/repo' else hashlib.sha1(repo.encode()).hexdigest()[:8]
+    wdir = os.path.join(WORK, 'witness-' + tag)
+    src = os.path.join(VERIF, 'witness', 'src', 'lib.rs')
+    lock = open(os.path.join(WORK, 'lock-witness'), 'w')
+    fcntl.flock(lock, fcntl.LOCK_EX)
+    try:
+        want = tree_hash(repo, extra=[src])
+        rfile = os.path.join(wdir, 'RESULT.json')
+        if os.path.exists(rfile):
+            with open(rfile) as fh:
+                r = json.load(fh)
+            if r.get('hash') == want:
+                return r['results'], {'cached': True}
+        shutil.rmtree(wdir, ignore_errors=True)
+        os.makedirs(os.path.join(wdir, 'src'))
+        shutil.copy(src, os.path.join(wdir, 'src', 'lib.rs'))
+        with open(os.path.join(VERIF, 'witness', 'Cargo.toml.in')) as fh:
+            toml = fh.read().replace('@REPO@', os.path.realpath(repo))
+        with open(os.path.join(wdir, 'Cargo.toml'), 'w') as fh:
+            fh.write(toml)
+        shutil.copy(os.path.join(repo, 'Cargo.lock'), os.path.join(wdir, 'Cargo.lock'))
+        env = dict(os.environ, CARGO_NET_OFFLINE='true', CARGO_TARGET_DIR=os.path.join(WORK, 'target-witness'))
+        env.pop('RUSTC_WRAPPER', None); env.pop('RUSTC_WORKSPACE_WRAPPER', None)
+        t0 = time.time()
+        p = subprocess.run(['cargo', '+nightly', 'test', '--doc', '--offline'], cwd=wdir, env=env, capture_output=True, text=True)
+        out = p.stdout + p.stderr
+        results = {}
+        for m in re.finditer(r'^test src/lib\.rs - (\w+) \(line \d+\) - (compile fail|compile) \.\.\. (\w+)', out, re.M):
+            results.setdefault(m.group(1), []).append([m.group(2), m.group(3) == 'ok'])
+        if not results:
+            raise BuildError('witness crate did not build against %s:\n%s' % (repo, out[-3000:]))
+        with open(rfile, 'w') as fh:
+            json.dump({'hash': want, 'results': results}, fh)
+        return results, {'cached': False, 'witness_s': round(time.time() - t0, 2)}
+    finally:
+        fcntl.flock(lock, fcntl.LOCK_UN)
+        lock.close()
